@@ -395,6 +395,28 @@ pub fn check_output(model: &Model, bytes: &[u8]) -> Result<Vec<Mismatch>, String
                 mm.push(Mismatch::new("func_ref", &format!("ref.func({what})"), format!("expected {} got {}", fp_s(&ef(*x)), fp_s(&af(*y)))));
             }
         }
+        (ConstE::StructNew(t1, f1), ConstE::StructNew(t2, f2)) if t1 == t2 && f1.len() == f2.len() => {
+            // every reference of a multi-reference initialiser
+            for (x, y) in f1.iter().zip(f2.iter()) {
+                match (x, y) {
+                    (ConstE::GlobalGet(p), ConstE::GlobalGet(q)) => {
+                        if eg(*p) != ag(*q) {
+                            mm.push(Mismatch::new("global_ref", &format!("global.get({what})"), format!("(struct field) expected {} got {}", fp_s(&eg(*p)), fp_s(&ag(*q)))));
+                        }
+                    }
+                    (ConstE::RefFunc(p), ConstE::RefFunc(q)) => {
+                        if ef(*p) != af(*q) {
+                            mm.push(Mismatch::new("func_ref", &format!("ref.func({what})"), format!("(struct field) expected {} got {}", fp_s(&ef(*p)), fp_s(&af(*q)))));
+                        }
+                    }
+                    (p, q) => {
+                        if p != q {
+                            mm.push(Mismatch::new("entity_changed", &format!("{what}.const"), format!("(struct field) expected {:?} got {:?}", p, q)));
+                        }
+                    }
+                }
+            }
+        }
         (e, a) => {
             if e != a {
                 mm.push(Mismatch::new("entity_changed", &format!("{what}.const"), format!("expected {:?} got {:?}", e, a)));
@@ -773,7 +795,17 @@ pub fn check_output(model: &Model, bytes: &[u8]) -> Result<Vec<Mismatch>, String
         match owner {
             Some(f) => {
                 let mf = &model.funcs[f as usize];
-                if mf.name_known && mf.name.as_ref() != Some(name) {
+                if !mf.name_known {
+                    // what a replaced / converted function is called is not stated - but it must not carry
+                    // a name that belongs to ANOTHER function of the module (names are unique here)
+                    if let Some(other) = model.alive_funcs().into_iter().find(|g| *g != f && model.funcs[*g as usize].name_known && model.funcs[*g as usize].name.as_ref() == Some(name)) {
+                        mm.push(Mismatch::new(
+                            "name_migrated",
+                            "func",
+                            format!("name {:?} of {:?} is (also) attached to {:?}", name, model.func_fp(other), fp),
+                        ));
+                    }
+                } else if mf.name.as_ref() != Some(name) {
                     mm.push(Mismatch::new(
                         "name_migrated",
                         if model.local(f).map_or(false, |l| l.built) { "func(built)" } else { "func" },
